@@ -69,6 +69,10 @@ def site_ordinal(fn, bid):
     return rb.index(bid) if bid in rb else -1
 
 
+def _rel_line(fn, ln):
+    return "+%d" % ((ln or fn.line) - fn.line)
+
+
 def run(ctx):
     prog = ctx.prog
     cg = callgraph(ctx)
@@ -90,6 +94,7 @@ def run(ctx):
     sites = {}  # (fn id, ordinal) -> dict(exc, reach: [(chain, facts)], unreach: n, fn, bid)
     throwers = {}  # (fn id, callee name, canon(args)) -> dict
     ncontexts = 0
+    formats = {}  # nitro::format(...) calls on the parse path
 
     ctx_inits = {}  # call chain (tuple) -> facts inherited at the entry of its last function
 
@@ -120,6 +125,8 @@ def run(ctx):
                 key = (fn.id, short(nm), fmt(n))
                 t = throwers.setdefault(key, {"fn": fn, "node": n, "what": what, "ctxs": []})
                 t["ctxs"].append((chain, env, st, bid, idx))
+        if nm == "nitro::format" and fn.file.startswith("/repo/"):
+            formats.setdefault((fn.id, n.get("ln"), fmt(n)), {"fn": fn, "node": n, "bid": bid, "idx": idx})
         # std::regex built from something that is not a literal
         if n.get("k") == "construct" and "basic_regex" in (n.get("name") or ""):
             a0 = ir.unwrap(n["args"][0]) if n.get("args") else None
@@ -181,6 +188,31 @@ def run(ctx):
                 detail={"chains": [list(c) for c, _ in s["reach"][:5]], "facts": fl})
     ctx.need("R04.1", "parsing_error raise sites on the parse path", n_allowed, 8)
     ctx.need("R04.1", "guarded developer-error raise sites on the parse path", n_guard, 5)
+
+    # ---- format strings on the parse path: formatter::str() raises the library's BASE exception when placeholders and
+    # arguments disagree, so the format string must be a literal (no user data in it) whose `{}` count equals the % operands
+    for key, t in sorted(formats.items(), key=lambda kv: (kv[0][0], kv[0][1] or 0)):
+        fn, n = t["fn"], t["node"]
+        a0 = ir.unwrap(n["args"][0]) if n.get("args") else None
+        where = (fn, n.get("ln"))
+        construct = "format-string@%s" % _rel_line(fn, n.get("ln"))
+        if not (isinstance(a0, dict) and a0.get("k") == "lit" and isinstance(a0.get("v"), str)):
+            ctx.bad("R04.1", fn, construct, "nitro::format is given a computed format string (%s) on the parse path: any `{}` in the data spliced into it counts as a placeholder, and "
+                    "the arity mismatch makes formatter::str() raise the library's base exception instead of parsing_error" % fmt(a0)[:120], where)
+            continue
+        root = fn.elems(t["bid"])[t["idx"]]["expr"]
+        depth = 0
+        for m in walk(root):
+            d, x = 0, m
+            while isinstance(x, dict) and x.get("k") == "call" and short(x.get("name") or "") == "operator%":
+                d += 1
+                x = ir.unwrap(x.get("this") if x.get("this") is not None else (x.get("args") or [None])[0])
+            if x is n:
+                depth = max(depth, d)
+        stored = root.get("k") == "decl"
+        k = a0["v"].count("{}")
+        ctx.check(stored or k == depth, "R04.1", fn, construct, "the format literal %r has %d placeholder(s) but %d argument(s) are supplied with %%: formatter::str() raises the base exception"
+                  % (a0["v"], k, depth), where, why_ok="literal, %d placeholder(s), %d argument(s)" % (k, depth))
 
     # ---- standard-library throwers
     for (fid, nm, text), t in sorted(throwers.items(), key=lambda kv: kv[0]):
@@ -300,7 +332,7 @@ def run(ctx):
     if ctx.prop == "C04" and not getattr(ctx, "_sharing", False):
         from .common import share
         share(ctx, "C14", ("R14.2", "R14.3"), "R04.5", "reset obligations shared with C14", 3)
-        share(ctx, "C01", ("R01.5", "R01.7", "R01.8"), "R04.5", "matching obligations shared with C01", 6)
+        share(ctx, "C01", ("R01.5", "R01.7", "R01.8", "R01.11"), "R04.5", "matching obligations shared with C01", 6)
         # ---- R04.6: documented conditions that must raise do raise (positional limit in every mode; syntax check for every token ahead of `--`)
         ctx.rule("R04.6", "the documented rejections `more positionals than accepted` and `malformed dash token ahead of --` are in force on every path (R12.3, R12.6 re-evaluated)")
         share(ctx, "C12", ("R12.3", "R12.6"), "R04.6", "rejection obligations shared with C12", 4)
